@@ -3338,12 +3338,11 @@ class sptensor:
 
             # Both nonzero
             if self.subs.size > 0 and other.subs.size > 0:
-                idxSelf = tt_intersect_rows(self.subs, other.subs)
-                idxOther = tt_intersect_rows(other.subs, self.subs)
-                newsubs = self.subs[idxSelf, :]
-                newvals = self.vals[idxSelf] / other.vals[idxOther]
+                matched, idxOther = tt_ismember_rows(self.subs, other.subs)
+                newsubs = self.subs[matched, :]
+                newvals = self.vals[matched] / other.vals[idxOther[matched]]
             else:
-                newsubs = np.empty((0, len(self.shape)))
+                newsubs = np.empty((0, len(self.shape)), dtype=int)
                 newvals = np.empty((0, 1))
 
             # Self nonzero and other zero
@@ -3352,7 +3351,7 @@ class sptensor:
                 morevals = np.empty((moresubs.shape[0], 1))
                 morevals.fill(np.nan)
                 if moresubs.size > 0:
-                    newsubs = np.vstack((newsubs, SelfZeroSubs[moresubs, :]))
+                    newsubs = np.vstack((newsubs, self.subs[moresubs, :]))
                     newvals = np.vstack((newvals, morevals))
 
             # other nonzero and self zero
@@ -3361,7 +3360,7 @@ class sptensor:
                 morevals = np.empty((moresubs.shape[0], 1))
                 morevals.fill(0)
                 if moresubs.size > 0:
-                    newsubs = np.vstack((newsubs, OtherZeroSubs[moresubs, :]))
+                    newsubs = np.vstack((newsubs, other.subs[moresubs, :]))
                     newvals = np.vstack((newvals, morevals))
 
             # Both zero
